@@ -799,6 +799,19 @@ func ruleTIFF(c *eng.Ctx, R string) {
 					return (op == token.GEQ && isCol(px) && py.Equal(colors)) || (op == token.LEQ && px.Equal(colors) && isCol(py))
 				})
 				if !g {
+					g = loopStartsAt(la.Index, leaf, colors)
+				}
+				// the prediction restarts in every row: the position is row*rowSize + col of two loop variables
+				nLoop := 0
+				for _, sy := range sIdx.Symbols() {
+					if strings.HasPrefix(sy, "$") {
+						nLoop++
+					}
+				}
+				if nLoop < 2 {
+					bad = append(bad, "the sample position is not row start + column of a row loop and a column loop (prediction must restart at every row)")
+				}
+				if !g {
 					bad = append(bad, "left neighbour access not guarded by col >= Colors")
 				}
 			} else if la.X == ssa.Value(fn.Params[0]) {
@@ -813,6 +826,67 @@ func ruleTIFF(c *eng.Ctx, R string) {
 	} else {
 		c.Ok(R, "filters.applyTIFFPredictor2#left", fn.Pos(), "result[idx] = data[idx] + result[idx-Colors] for col >= Colors")
 	}
+}
+
+// loopStartsAt reports whether the index expression is driven by a +1 induction variable whose initial value is
+// `start` on every way into the loop, so that  var >= start  holds in the body without a test. An initial value
+// that is a merge (first := start; if first > n { first = n }) is accepted when each other alternative is the
+// loop's own upper bound, which leaves the body unexecuted.
+func loopStartsAt(index ssa.Value, leaf func(ssa.Value) (*eng.Poly, bool), start *eng.Poly) bool {
+	for v := range eng.Slice(index, nil) {
+		ph, ok := eng.Induction(v)
+		if !ok || ph != v {
+			continue
+		}
+		// the loop test  ph < bound  in the header, body on the true edge
+		var bound ssa.Value
+		if iff, ok := ph.Block().Instrs[len(ph.Block().Instrs)-1].(*ssa.If); ok {
+			if cmp, ok := iff.Cond.(*ssa.BinOp); ok {
+				switch {
+				case cmp.Op == token.LSS && cmp.X == ssa.Value(ph):
+					bound = cmp.Y
+				case cmp.Op == token.GTR && cmp.Y == ssa.Value(ph):
+					bound = cmp.X
+				}
+			}
+		}
+		var initOK func(e ssa.Value, d int) bool
+		initOK = func(e ssa.Value, d int) bool {
+			if p, ok := eng.IntPoly(e, leaf); ok && p.Equal(start) {
+				return true
+			}
+			if bound != nil && eng.SameValue(e, bound) {
+				return true
+			}
+			if m, ok := e.(*ssa.Phi); ok && d < 3 && !isLoopCarried(m) {
+				for _, me := range m.Edges {
+					if !initOK(me, d+1) {
+						return false
+					}
+				}
+				return true
+			}
+			return false
+		}
+		all := true
+		for i, e := range ph.Edges {
+			if ph.Block().Dominates(ph.Block().Preds[i]) {
+				// back edge: must be the +1 step
+				b, ok := e.(*ssa.BinOp)
+				if !ok || b.Op != token.ADD || b.X != ssa.Value(ph) {
+					all = false
+				}
+				continue
+			}
+			if !initOK(e, 0) {
+				all = false
+			}
+		}
+		if all {
+			return true
+		}
+	}
+	return false
 }
 
 // ---------------------------------------------------------------------------
